@@ -97,7 +97,7 @@ func (c c11case) String() string {
 	var parts []string
 	for i, s := range c.Splits {
 		var kv []string
-		for _, p := range []string{"p", "q"} {
+		for _, p := range []string{"p", ".p"} {
 			if v, ok := s[p]; ok {
 				kv = append(kv, p+"="+v)
 			}
@@ -357,10 +357,10 @@ func c11cases() []c11case {
 			}
 		}
 	}
-	gen(1, []string{"p", "q"}, opts)
-	gen(2, []string{"p", "q"}, opts)
+	gen(1, []string{"p", ".p"}, opts) // a dotted path and its undotted sibling: conflict entries of both must stay apart
+	gen(2, []string{"p", ".p"}, opts)
 	if lib.Thorough() {
-		gen(3, []string{"p", "q"}, opts)
+		gen(3, []string{"p", ".p"}, opts)
 		gen(3, []string{"p"}, []string{"", "h1", "h2", "h3"})
 		gen(4, []string{"p"}, []string{"h1", "h2"})
 	} else {
@@ -372,7 +372,7 @@ func c11cases() []c11case {
 func TestC11(t *testing.T) {
 	rep := lib.NewReport("C11", "model_checking")
 	defer rep.Finish(t)
-	rep.Rule = "for every assignment of contents {absent,h1,h2(,h3)} to (split, path) over 1..3(4) splits uploaded one fake second apart (split IDs co- and counter-ordered with time) x 4 conflict modes: the real Diamond.Commit runs with the Gets of all split index files gated and the DFS releases them in every permutation; oracle = specification of the merge (latest upload wins; losers kept under their uploader; identical content never a conflict; forbid fails iff conflict; flags) + a 1-split diamond equals a plain upload; plus two splits with an overlapping path uploading CONCURRENTLY (blob and vmetadata calls gated, one entry per split index file through the verif hook, one fake second per call, all interleavings within the preemption bound) then a commit: recorded upload times lie between the file's blob write and the split's completion, and the later upload of the shared path wins; plus commits of 2..3 completed splits (1..2 files each, one index file per entry) with every listing page size 1..10: all files of all splits; distinct = distinct (case, committed entry set)"
+	rep.Rule = "for every assignment of contents {absent,h1,h2(,h3)} to (split, path) over 1..3(4) splits uploaded one fake second apart (split IDs co- and counter-ordered with time) x 4 conflict modes: the real Diamond.Commit runs with the Gets of all split index files gated and the DFS releases them in every permutation; oracle = specification of the merge (latest upload wins; losers kept under their uploader; identical content never a conflict; forbid fails iff conflict; flags) + a 1-split diamond equals a plain upload; plus two splits with an overlapping path uploading CONCURRENTLY (blob and vmetadata calls gated, one entry per split index file through the verif hook, one fake second per call, all interleavings within the preemption bound) then a commit: recorded upload times lie between the file's blob write and the split's completion, and the later upload of the shared path wins; plus commits of 2..3 completed splits (1..2 files each, one index file per entry; every other case preceded by a split that completed with no file) with every listing page size 1..10: all files of all splits; distinct = distinct (case, committed entry set)"
 	cases := c11cases()
 	hashes := c11hash(nil)
 	parent := lib.RunCases(t, rep, "TestC11", len(cases), 0, 120*time.Second, func(i int) {
@@ -409,6 +409,7 @@ func c11pages(t *testing.T, rep *lib.Report, prop string) {
 		for _, filesPerSplit := range []int{1, 2} {
 			for page := 1; page <= 10; page++ {
 				nsplits, filesPerSplit, page := nsplits, filesPerSplit, page
+				emptyFirst := (nsplits+filesPerSplit+page)%2 == 0 // every other case starts with a split that completes with no file
 				lib.Bubble(t, func() {
 					w := NewWorld()
 					w.Blob.NoJournal = true
@@ -422,6 +423,12 @@ func c11pages(t *testing.T, rep *lib.Report, prop string) {
 					}
 					want := map[string]bool{}
 					core.VerifIndexEntriesPerFile = 1 // one index file per entry: several keys per split under the listed prefix
+					if emptyFirst {
+						time.Sleep(time.Second)
+						if err := splitAdd(st, "r", dd.DiamondID, "s-empty", map[string][]byte{}); err != nil {
+							panic(err)
+						}
+					}
 					for i := 0; i < nsplits; i++ {
 						time.Sleep(time.Second)
 						files := map[string][]byte{}
@@ -443,7 +450,7 @@ func c11pages(t *testing.T, rep *lib.Report, prop string) {
 					d := core.NewDiamond("r", st, core.DiamondDescriptor(model.NewDiamondDescriptor(model.DiamondClone(diamond), model.DiamondMode(model.EnableConflicts))),
 						core.DiamondMessage("commit"), core.DiamondLogger(nopLogger))
 					d.BundleDescriptor.LeafSize = c11L
-					desc := fmt.Sprintf("%d splits x %d files, commit with page size %d", nsplits, filesPerSplit, page)
+					desc := fmt.Sprintf("%d splits x %d files (empty split first: %v), commit with page size %d", nsplits, filesPerSplit, emptyFirst, page)
 					rp := map[string]interface{}{"splits": nsplits, "files_per_split": filesPerSplit, "page_size": page}
 					rep.Eval(1)
 					n++
